@@ -389,7 +389,11 @@ func (e *OpEngine) RunActivationGradientChecks(maxRank int) {
 				return
 			}
 			out, ok := e.call(key, label, fwd, []interp.Value{act, e.tensorsArg(e.W.Boxed(hT))})
-			if !ok || isErrVal(out.Results[1]) {
+			if !ok {
+				return
+			}
+			if isErrVal(out.Results[1]) {
+				e.find("A4.pre", key, "rejects-valid", e.P.FuncPos(fwd), "Forward fails on a valid input [instance "+label+"]")
 				return
 			}
 			y, _ := e.W.AsTensor(out.Results[0])
@@ -429,7 +433,11 @@ func (e *OpEngine) RunActivationGradientChecks(maxRank int) {
 				x := e.mkTensor("X", TensorArg{Dims: dims, Tracked: true, Rng: spec.Rng(-50, 50)})
 				g := e.mkTensor("G", TensorArg{Dims: dims, Rng: spec.Rng(-1e3, 1e3)})
 				out, ok := e.call(key, label, fwd, []interp.Value{act, e.tensorsArg(e.W.Boxed(x))})
-				if !ok || isErrVal(out.Results[1]) {
+				if !ok {
+					return
+				}
+				if isErrVal(out.Results[1]) {
+					e.find("A4.pre", key, "rejects-valid", pos, "Forward fails on a valid input [instance "+label+"]")
 					return
 				}
 				y, _ := e.W.AsTensor(out.Results[0])
@@ -601,15 +609,27 @@ func (e *OpEngine) RunTrainingLoopChecks() {
 							ti.Name, ti.Elem, ti.Rng, ti.Has = names[i], sym.LeafE(names[i], spec.IdentIdx(1)), spec.Rng(0.1, 1), true
 						}
 						out, ok = e.call(key, label, fwd, []interp.Value{fc, e.tensorsArg(e.W.Boxed(x))})
-						if !ok || isErrVal(out.Results[1]) {
+						if !ok {
+							return
+						}
+						if isErrVal(out.Results[1]) {
+							e.find("A4.pre", key, "rejects-valid", e.P.FuncPos(fwd), "FC.Forward fails inside a well-formed pipeline [instance "+label+"]")
 							return
 						}
 						out, ok = e.call(key, label, actFwd, []interp.Value{act, e.tensorsArg(out.Results[0])})
-						if !ok || isErrVal(out.Results[1]) {
+						if !ok {
+							return
+						}
+						if isErrVal(out.Results[1]) {
+							e.find("A4.pre", key, "rejects-valid", e.P.FuncPos(actFwd), "the activation fails inside a well-formed pipeline [instance "+label+"]")
 							return
 						}
 						out, ok = e.call(key, label, ceCompute, []interp.Value{ce, out.Results[0], e.W.Boxed(t)})
-						if !ok || isErrVal(out.Results[1]) {
+						if !ok {
+							return
+						}
+						if isErrVal(out.Results[1]) {
+							e.find("A4.pre", key, "rejects-valid", e.P.FuncPos(ceCompute), "the loss fails inside a well-formed pipeline [instance "+label+"]")
 							return
 						}
 						l, _ := e.W.AsTensor(out.Results[0])
